@@ -6,6 +6,7 @@ func init() {
 		Technique:   "closure free-variable store analysis of goroutine bodies (write discipline, join-before-read by dominance), SSA protocol rules on the container/heap merge iterator",
 		Explanation: "Decides structural clauses of the multi-container merge for all schedules and inputs: goroutines write only their own per-iteration slot and the parent reads after Wait (completion-order independence, structural race freedom); the heap protocol emits every popped record, refills from and re-tags with the popped element's source, pushes at most one element per source, and the heap orders by timestamp ascending.",
 		Decided: []string{
+			"PV-WHOLE: each listed container is selected and read at most once; PV-ORDER (shared with C03): a record body is a copy of the reused frame buffer",
 			"PV-ROLE context: every openLog call uses the query context (not a context cancelled when the opening goroutines finish); PV-PAIR origin: each record is stamped with its own stream's resource",
 			"PV-GO: goroutine bodies store only to iters[idx] with idx the per-iteration range index; no captured variable is reassigned/appended; Wait dominates every later return and every parent read of the slice",
 			"PV-ROLE: iterHeapElem.Less is a.record.Timestamp < b.record.Timestamp; the heap adapter compares h[i] with h[j]",
